@@ -65,6 +65,7 @@ static bool isAcceptedErrorIdChar(char c)
     case '-':
     case '.':
     case '*':
+    case '?':
         return true;
     default:
         return c > 0 && std::isalnum(c);
